@@ -34,8 +34,8 @@ theorem chainF_fuel {α : Type} (attrs : List AttrRec) (sel : AttrRec → Option
 /-- lookup in a fresh `class Attributes(parent)`: own writes first, then whatever the parent resolves to -/
 theorem attrAt_fresh (h : Heap) (r : AttrRec) (p : Nat) (hp : r.parent = some p) (hlt : p < h.attrs.length)
     (attrs' : List AttrRec) (hpre : ∀ x, x < h.attrs.length → (attrs'[x]?).map AttrRec.pub = (h.attrs[x]?).map AttrRec.pub)
-    (hr : (attrs'[h.attrs.length]?).map AttrRec.pub = some r.pub) (cls' : List Cls) (k : String) :
-    attrAt { cls := cls', attrs := attrs' } h.attrs.length k
+    (hr : (attrs'[h.attrs.length]?).map AttrRec.pub = some r.pub) (cls' : List Cls) (ps : List Kw) (k : String) :
+    attrAt { cls := cls', attrs := attrs', prots := ps } h.attrs.length k
       = match kwLookup r.own k with
         | some v => some v
         | none => attrAt h p k := by
@@ -115,7 +115,7 @@ theorem simpleCustomize_exact (F : Facts15) [DeepCopy F] (src : Nat) (kw : Kw) (
     intro hh; unfold simpleNewCls; split <;> rfl
   rw [hattrs]
   exact attrAt_fresh g4 _ sc'.attrs rfl hrange _
-    (fun x hx => by rw [List.getElem?_append_left hx]) (by simp) _ k
+    (fun x hx => by rw [List.getElem?_append_left hx]) (by simp) _ _ k
 
 /-- all writes of a customisation in one list: the keyword loop processes the keywords in order, so the
     write of a later keyword is found first -/
@@ -165,17 +165,36 @@ theorem evolveOp_ok (impl : Nat → M Unit) (h h' : Heap) (c t : Nat) (r : Optio
     cases u4
     exact ⟨cl, rfl, hk, e4⟩
 
+theorem liftExcept_ok {α : Type} {x : Except String α} {h g : Heap} {a : α} (e : liftExcept x h = .ok g a) : g = h := by
+  unfold liftExcept at e
+  cases x with
+  | ok v => simp only [Pure.pure, M.pure] at e; cases e; rfl
+  | error s => simp only [SpyneModel.Derive.fail] at e; cases e
+
 /-- the class a class statement creates -/
 theorem subclassOp_result (F : Facts15) (base : Option Nat) (name : String) (ns : Option String)
-    (fields : List (String × Nat)) (perm : List Nat) (attrs : Option Kw) (h h' : Heap) (id : Nat)
-    (hr : subclassOp F base name ns fields perm attrs h = .ok h' id) :
-    ∃ cl, h'.cls[id]? = some cl ∧ cl.fields = declaredFields F perm fields ∧ cl.orig = none
+    (fields : List (String × Nat)) (perm : List Nat) (attrs : Option Kw) (mixins : List Nat) (asMixin : Bool)
+    (h h' : Heap) (id : Nat)
+    (hr : subclassOp F base name ns fields perm attrs mixins asMixin h = .ok h' id) :
+    ∃ cl, h'.cls[id]? = some cl
+      ∧ cl.fields = prependMixins F (mixinFields h mixins) (declaredFields F perm fields) ∧ cl.orig = none
       ∧ cl.tn = some name ∧ cl.kind = .complex := by
   unfold subclassOp at hr
   obtain ⟨g1, bc, e1, hr1⟩ := bind_ok_inv _ _ _ _ _ hr
   obtain ⟨g2, ext, e2, hr2⟩ := bind_ok_inv _ _ _ _ _ hr1
-  simp only [SpyneModel.Derive.allocBoth] at hr2
-  cases hr2
+  obtain ⟨g3, h0, e3, hr3⟩ := bind_ok_inv _ _ _ _ _ hr2
+  obtain ⟨g4, u4, e4, hr4⟩ := bind_ok_inv _ _ _ _ _ hr3
+  have hg1 : g1 = h := by
+    simp only [SpyneModel.Derive.getCls] at e1
+    split at e1
+    · cases e1; rfl
+    · cases e1
+  have hg2 := liftExcept_ok e2
+  obtain ⟨hg3, hh0⟩ := getHeap_ok e3
+  have hg4 := guardNone_ok e4
+  subst hg4; subst hh0; subst hg3; subst hg2; subst hg1
+  simp only [SpyneModel.Derive.allocBoth] at hr4
+  cases hr4
   refine ⟨_, List.getElem?_concat_length, ?_, ?_, ?_, ?_⟩ <;> rfl
 
 
@@ -201,7 +220,7 @@ theorem newVariant_result (F : Facts15) [DeepCopy F] (sc : Cls) (src : Nat) (ext
   cases hr4
   -- the two bookkeeping steps respect the frame of the heap with the new class and record in it
   let hm : Heap := { cls := h.cls ++ [variantCls sc src h.attrs.length ext kw],
-                     attrs := h.attrs ++ [newAttrRec F h sc.attrs kw] }
+                     attrs := h.attrs ++ [newAttrRec F h sc.attrs kw], prots := h.prots }
   have x3 := (good_copyDca (n := hm.cls.length) (na := hm.attrs.length) (T := []) h.attrs.length hm
     (Nat.le_refl _) (Nat.le_refl _)).1
   rw [e3] at x3
@@ -215,7 +234,7 @@ theorem newVariant_result (F : Facts15) [DeepCopy F] (sc : Cls) (src : Nat) (ext
     simp [hm]
   · rw [x.attrs h.attrs.length (by simp [hm])]
     simp [hm]
-  · refine ⟨?_, ?_, ?_, ?_, ?_⟩
+  · refine ⟨?_, ?_, ?_, ?_, ?_, x.prots⟩
     · have := x.clsLen; simp [hm] at this; omega
     · have := x.attrsLen; simp [hm] at this; omega
     · intro c hc _
@@ -230,12 +249,6 @@ theorem newVariant_result (F : Facts15) [DeepCopy F] (sc : Cls) (src : Nat) (ext
       rw [x.core c (by simp [hm]; omega)]
       simp only [hm]
       rw [List.getElem?_append_left hc]
-
-theorem liftExcept_ok {α : Type} {x : Except String α} {h g : Heap} {a : α} (e : liftExcept x h = .ok g a) : g = h := by
-  unfold liftExcept at e
-  cases x with
-  | ok v => simp only [Pure.pure, M.pure] at e; cases e; rfl
-  | error s => simp only [SpyneModel.Derive.fail] at e; cases e
 
 /-- EXACT (ComplexModel / Array `customize`, with or without child attributes): the returned class is new, it is
     a class of the same family registered with the same original, and each of its attributes is the value the
@@ -305,7 +318,7 @@ theorem custComplex_exact (F : Facts15) [DeepCopy F] (fuel src : Nat) (kw : Kw) 
         (fun y hy => by
           rw [x.attrs y (by omega)]
           exact hext.attrs y hy)
-        (by rw [← ha, x.attrs a halt]; exact hpub) g7.cls k
+        (by rw [← ha, x.attrs a halt]; exact hpub) g7.cls g7.prots k
       exact e
 
 
@@ -406,9 +419,9 @@ theorem newAttrRec_col (F : Facts15) [d : DeepCopy F] (h : Heap) (a : Nat) (kw :
   | none => rfl
   | some p => simp [d.deep]
 
-theorem colH_fresh (attrs' : List AttrRec) (cls' : List Cls) (a : Nat) (r : AttrRec) (dd : Kw)
+theorem colH_fresh (attrs' : List AttrRec) (cls' : List Cls) (ps : List Kw) (a : Nat) (r : AttrRec) (dd : Kw)
     (hr : (attrs'[a]?).map AttrRec.pub = some r.pub) (hd : r.colArgs = some dd) :
-    colH { cls := cls', attrs := attrs' } a = some (a, dd) := by
+    colH { cls := cls', attrs := attrs', prots := ps } a = some (a, dd) := by
   cases hr' : attrs'[a]? with
   | none => simp [hr'] at hr
   | some r' =>
@@ -450,7 +463,7 @@ theorem simpleCustomize_col (F : Facts15) [DeepCopy F] (src : Nat) (kw : Kw) (h 
     intro hh; unfold simpleNewCls; split <;> rfl
   unfold obs1
   simp only [List.getElem?_concat_length, Option.map_some, hattrs]
-  rw [colH_fresh _ _ g4.attrs.length
+  rw [colH_fresh _ _ _ g4.attrs.length
     (newAttrRec F g4 sc'.attrs (if (sc'.kind == Kind.number) = true then numberKw F g4 sc'.attrs kw else kw)) _
     (by simp) (newAttrRec_col F g4 sc'.attrs _)]
   rfl
@@ -529,5 +542,35 @@ theorem simpleCustomize_twice_exact (F : Facts15) [DeepCopy F] (t : Nat) (d e : 
     rw [r1] at this; exact this
   refine ⟨c1, hc1, hk1, ?_⟩
   rw [simpleCustomize_exact F t1 e h1 h2 t2 ih1 c1 hc1 r2 k, simpleCustomize_exact F t d h h1 t1 ih tc htc r1 k]
+
+
+theorem listInsertAt_zero {β : Type} (l : List β) (x : β) : listInsertAt l 0 x = x :: l := by
+  cases l <;> rfl
+
+/-- mixin fields first, in their order, then the declared fields the mixins do not have -/
+theorem keysOf_prepend (mf d : List (String × Nat)) (hn : (keysOf mf).Nodup) :
+    keysOf (mf.reverse.foldl (fun (acc : List (String × Nat)) (p : String × Nat) => odictInsert acc 0 p.1 p.2) d)
+      = keysOf mf ++ (keysOf d).filter (fun k => !(keysOf mf).contains k) := by
+  rw [List.foldl_reverse]
+  induction mf with
+  | nil =>
+    simp only [keysOf, List.map_nil, List.foldr_nil, List.nil_append, List.contains_nil, Bool.not_false]
+    exact (List.filter_eq_self.mpr (fun _ _ => rfl)).symm
+  | cons p rest ih =>
+    have hp : p.1 ∉ keysOf rest := (List.nodup_cons.mp hn).1
+    have hr : (keysOf rest).Nodup := (List.nodup_cons.mp hn).2
+    simp only [List.foldr_cons]
+    rw [keysOf_odictInsert, listInsertAt_zero, ih hr]
+    simp only [keysOf, List.map_cons, List.cons_append, List.cons.injEq, true_and, List.filter_append]
+    congr 1
+    · apply List.filter_eq_self.mpr
+      intro x hx
+      have : x ≠ p.1 := fun e => hp (by simpa [keysOf, e] using hx)
+      simp [this]
+    · rw [List.filter_filter]
+      apply List.filter_congr
+      intro x _
+      by_cases e : x = p.1 <;> simp [e]
+
 
 end SpyneModel.Derive
